@@ -87,6 +87,7 @@ func init() {
 }
 
 var soloRoots = []string{
+	"8/8/8/4k3/8/4K3/8/8 w - - 98 60", "7k/5Q2/6K1/8/8/8/8/8 b - - 0 1", "6rk/5Npp/8/8/8/8/8/4K3 b - - 0 1",
 	"8/8/8/4k3/8/8/4P3/4K3 w - - 0 1", "8/8/8/4k3/8/8/4P3/4K3 b - - 0 1", "4k3/8/8/8/8/8/8/4K2R w K - 0 1", "7k/5Q2/6K1/8/8/8/8/8 b - - 0 1",
 	"r3k2r/8/8/8/8/3r4/8/R3K2R w KQkq - 0 1", "4k3/8/8/8/3pP3/8/8/4K3 b - e3 0 1", "8/P7/8/8/8/8/7p/K1k5 w - - 0 1", "4k3/8/8/8/8/8/8/4K2R w K - 99 60",
 	"rnbqkbnr/pppppppp/8/8/8/8/PPPPPPPP/RNBQKBNR w KQkq - 0 1", "r1bqkbnr/pppp1ppp/2n5/4p3/4P3/5N2/PPPP1PPP/RNBQKB1R w KQkq - 2 3",
@@ -129,20 +130,21 @@ func runC13Trace(r *ev.Run) {
 		fmt.Println(string(out))
 		os.Exit(0)
 	})
-	for _, fen := range soloRoots[:6] {
+	for _, fen := range soloRoots[:9] {
 		b, err := board.FromFEN(fen)
 		if err != nil {
 			continue
 		}
-		for _, nodes := range []int{0, 7, 40, 1000} {
-			for _, stopAt := range []int{0, 1, 9, 60, 400, 3000} {
+		for _, nodes := range []int{-1, 0, 7, 40, 1000} {
+			for _, stopAt := range []int{0, 1, 9, 60, 400, 3000, 20000} {
 				current = fmt.Sprintf("%s: pondering search with node budget %d, stop closed from poll %d on: the search does not return", fen, nodes, stopAt)
 				s.Clear()
-				_, plan := soloSearchN(s, b, 2, nodes, stopAt, -1, true)
-				n++
-				if plan.StopPolls < stopAt+1 && plan.StopPolls < 3000 && hung == "" {
-					// returned without ever seeing stop: only legitimate when the search ran out of depth
+				if p, st := ev.Catch(func() { soloSearchN(s, b, 2, nodes, stopAt, -1, true) }); p != nil && hung == "" {
+					vsched.Solo = nil
+					hung = fmt.Sprintf("%s: pondering search with node budget %d, stop closed from poll %d on: the search panics: %v\n%s", fen, nodes, stopAt, p, firstLines(st, 10))
+					s = search.New(32000)
 				}
+				n++
 			}
 		}
 	}
